@@ -209,6 +209,64 @@ PreReset(w) == ~Locked(w)
 DoReset(w)  == NewWorld(w.rel)
 
 (***************************************************************************)
+(* Observers (C08).  o = [ev, obs, with, without : sets; excl : BOOLEAN].  *)
+(* Fires is transcribed from the documentation (docs/content/events):      *)
+(*  - the event types are equal;                                           *)
+(*  - all observed components are affected by this one operation           *)
+(*    ("both must be added or removed together"); for entity creation /    *)
+(*    removal the observed components count as `with`;                     *)
+(*  - with / without / exclusive are evaluated on the composition X: the   *)
+(*    entity before the operation for component add / remove events, the   *)
+(*    (unchanged) entity for set / relation-target / custom events, the    *)
+(*    new entity for creation, the entity about to disappear for removal.  *)
+(***************************************************************************)
+EntityEvents == {"OnCreateEntity", "OnRemoveEntity"}
+RemovalEvents == {"OnRemoveEntity", "OnRemoveComponents", "OnRemoveRelations"}
+
+ObsNorm(o) == IF o.ev \in EntityEvents THEN [o EXCEPT !.with = o.with \cup o.obs, !.obs = {}] ELSE o
+
+Fires(o0, ev, changed, X) ==
+    LET o == ObsNorm(o0) IN
+    /\ o.ev = ev
+    /\ (o.obs = {} \/ o.obs \subseteq changed)
+    /\ o.with \subseteq X
+    /\ o.without \cap X = {}
+    /\ (o.excl => X = o.with)
+
+\* the callbacks one event triggers: records [o, e, ph] ; ph = "pre" (before the change) or "post"
+EvCbs(w, ev, changed, X, e) ==
+    {[o |-> i, e |-> e, ph |-> IF ev \in RemovalEvents THEN "pre" ELSE "post"] :
+        i \in {j \in DOMAIN w.obs : Fires(w.obs[j], ev, changed, X)}}
+
+\* callbacks of the single-entity operations on entity x (h: the created handle for New / Copy)
+CbsNew(w, h, C, tg) ==
+    EvCbs(w, "OnCreateEntity", C, C, h)
+    \cup (IF DOMAIN tg # {} THEN EvCbs(w, "OnAddRelations", DOMAIN tg, C, h) ELSE {})
+CbsCopy(w, h, e) ==
+    LET C == CompsOf(w, e) IN
+    EvCbs(w, "OnCreateEntity", C, C, h)
+    \cup (IF RelOf(w, C) # {} THEN EvCbs(w, "OnAddRelations", RelOf(w, C), C, h) ELSE {})
+CbsExchange(w, x, add, rem, tg) ==
+    LET old == CompsOf(w, x) IN
+    (IF rem # {} THEN EvCbs(w, "OnRemoveComponents", rem, old, x) ELSE {})
+    \cup (IF RelOf(w, rem) # {} THEN EvCbs(w, "OnRemoveRelations", RelOf(w, rem), old, x) ELSE {})
+    \cup (IF add # {} THEN EvCbs(w, "OnAddComponents", add, old, x) ELSE {})
+    \cup (IF add # {} /\ DOMAIN tg # {} THEN EvCbs(w, "OnAddRelations", DOMAIN tg, old, x) ELSE {})
+CbsSet(w, x, C) == EvCbs(w, "OnSetComponents", C, CompsOf(w, x), x)
+CbsSetRel(w, x, tg) ==
+    LET d == {c \in DOMAIN tg : w.ent[x].t[c] # tg[c]} IN
+    IF d = {} THEN {}
+    ELSE EvCbs(w, "OnRemoveRelations", d, CompsOf(w, x), x) \cup EvCbs(w, "OnAddRelations", d, CompsOf(w, x), x)
+CbsKill(w, x) ==
+    LET C == CompsOf(w, x) IN
+    EvCbs(w, "OnRemoveEntity", C, C, x)
+    \cup (IF RelOf(w, C) # {} THEN EvCbs(w, "OnRemoveRelations", RelOf(w, C), C, x) ELSE {})
+CbsEmit(w, evt, C, x) == EvCbs(w, evt, C, IF x = Zero THEN {} ELSE CompsOf(w, x), x)
+
+DoRegO(w, i, o) == [w EXCEPT !.obs = Merge(@, Single(i, o))]
+DoUnregO(w, i)  == [w EXCEPT !.obs = Drop(@, {i})]
+
+(***************************************************************************)
 (* State properties of A (checked by TLC on every reachable ghost world    *)
 (* of layer B and by the monitor on every recorded execution).             *)
 (***************************************************************************)
